@@ -14,6 +14,7 @@ import (
 	"io"
 	"net/http"
 	"reflect"
+	"runtime"
 	"runtime/debug"
 	"sort"
 	"strings"
@@ -86,6 +87,8 @@ type Script struct {
 	Random   bool            `json:"random"`   // fill the response with seeded random values
 	ReadBody bool            `json:"readBody"` // read a raw request body and record it
 	Default  bool            `json:"default"`  // return the operation's default response (the implementer with a Code field)
+	Unique   int             `json:"unique"`   // > 0: overwrite the response's leaves with values unique to this tag
+	Yield    bool            `json:"yield"`    // call runtime.Gosched() at every call-back (C20)
 }
 
 type caseCtx struct {
@@ -321,7 +324,13 @@ func handle(reg Registry, rec *Recorder, op OpInfo, ctxV, reqV reflect.Value) re
 	if hr != nil {
 		tmpl, has = schemaPath(reg, hr)
 	}
+	if cc.script.Yield {
+		runtime.Gosched()
+	}
 	rec.Emit(Event{"ev": "Handler", "op": op.ID(), "tag": tag, "case": cc.id, "tmpl": tmpl, "has": has})
+	if cc.script.Yield {
+		runtime.Gosched()
+	}
 	if cc.script.Parse {
 		recordParse(rec, cc.id, reqV, cc.script.ReadBody)
 	}
@@ -423,6 +432,10 @@ func buildResponse(reg Registry, rec *Recorder, op OpInfo, cc *caseCtx) reflect.
 			fixDomain(h, "headers", r) // header values must survive the wire: visible ASCII, arrays non-empty
 		}
 	}
+	if cc.script.Unique > 0 {
+		cnt := 0
+		uniqueFill(v, cc.script.Unique+50_000_000, "", &cnt)
+	}
 	if f := v.FieldByName("Code"); f.IsValid() && f.Kind() == reflect.Int && (f.Int() == 0 || cc.script.Random) {
 		f.SetInt(int64(code))
 	}
@@ -430,7 +443,7 @@ func buildResponse(reg Registry, rec *Recorder, op OpInfo, cc *caseCtx) reflect.
 	hasRaw := false
 	if f := v.FieldByName("Body"); f.IsValid() && f.Kind() == reflect.Interface {
 		// io.Reader / io.ReadCloser body: a known byte string, so that it can be compared after it was consumed
-		rawBody = []byte(fmt.Sprintf("raw-%d-\x00\xff\n", cc.script.Seed))
+		rawBody = []byte(fmt.Sprintf("raw-%d-%d-\x00\xff\n", cc.script.Seed, cc.script.Unique))
 		if !cc.script.Random {
 			rawBody = []byte{}
 		}
